@@ -319,15 +319,34 @@ pub struct Printer {
     pub reverse_type_attrs: bool,
     /// write doc comments after the other attributes of an item instead of before them
     pub docs_after_attrs: bool,
+    /// attributes of functions and fields: 0 one bracket in canonical order, 1 one bracket reversed,
+    /// 2 one bracket per attribute, 3 one bracket per attribute reversed
+    pub attr_order: u8,
 }
 
 impl Default for Printer {
     fn default() -> Self {
-        Printer { style: NumStyle::Dec, reverse_type_attrs: false, docs_after_attrs: false }
+        Printer { style: NumStyle::Dec, reverse_type_attrs: false, docs_after_attrs: false, attr_order: 0 }
     }
 }
 
 impl Printer {
+    /// writes an attribute list in the arrangement selected by `attr_order`
+    pub fn attr_lines(&self, out: &mut String, indent: &str, mut attrs: Vec<String>) {
+        if attrs.is_empty() {
+            return;
+        }
+        if self.attr_order % 2 == 1 {
+            attrs.reverse();
+        }
+        if self.attr_order >= 2 {
+            for a in attrs {
+                let _ = writeln!(out, "{indent}#[{a}]");
+            }
+        } else {
+            let _ = writeln!(out, "{indent}#[{}]", attrs.join(", "));
+        }
+    }
     fn n(&self, v: i128) -> String {
         num(v, self.style)
     }
@@ -351,9 +370,7 @@ impl Printer {
             attrs.push(format!("calling_convention(\"{cc}\")"));
         }
         attrs.extend(f.extra_attrs.iter().cloned());
-        if !attrs.is_empty() {
-            let _ = writeln!(out, "{indent}#[{}]", attrs.join(", "));
-        }
+        self.attr_lines(out, indent, attrs);
         if self.docs_after_attrs {
             self.docs(out, indent, &f.doc);
         }
@@ -442,9 +459,7 @@ impl Printer {
                 attrs.push(format!("address({})", self.n(a)));
             }
             attrs.extend(f.extra_attrs.iter().cloned());
-            if !attrs.is_empty() {
-                let _ = writeln!(out, "    #[{}]", attrs.join(", "));
-            }
+            self.attr_lines(out, "    ", attrs);
             if self.docs_after_attrs {
                 self.docs(out, "    ", &f.doc);
             }
@@ -572,5 +587,13 @@ pub fn print_module(m: &ModuleS) -> String {
 pub fn to_input(mods: &[ModuleS]) -> crate::pipe::Input {
     crate::pipe::Input {
         modules: mods.iter().map(|m| (m.path.clone(), print_module(m))).collect(),
+    }
+}
+
+/// `to_input` with the attributes of functions and fields arranged as `attr_order` says (see `Printer`).
+pub fn to_input_arranged(mods: &[ModuleS], attr_order: u8) -> crate::pipe::Input {
+    let p = Printer { attr_order, ..Printer::default() };
+    crate::pipe::Input {
+        modules: mods.iter().map(|m| (m.path.clone(), p.module(m))).collect(),
     }
 }
